@@ -426,6 +426,59 @@ def r4_single_binding(ctx, sym):
         bind(fd, m1, '_x_', 'a')
         fd.call_method(m1, 'merge_map_with', [None])
         return conflicts(fd, m1)
+    # __expr__ placeholders: the binding made by the match in progress stands at the placeholder's position; a map
+    # inherited from an earlier match (use_previous) that bound the same placeholder name must not replace it
+    def expr_node(name):
+        return Obj('CaitNode<%s>' % name, astNode=Obj('ast.Name', id=name, _id=name))
+
+    def expr_scenario(build):
+        fd = session()
+        prev, cur = fd.calls['AstMap'](), fd.calls['AstMap']()
+        old, new = student('earlier_subtree'), student('subtree_at_position')
+        fd.call_method(prev, 'add_exp_to_sym_table', [expr_node('__a__'), old])
+        fd.call_method(cur, 'add_exp_to_sym_table', [expr_node('__a__'), new])
+        merged = build(fd, prev, cur)
+        got = [m.attrs['exp_table'].get('__a__') for m in merged]
+        return got, old, new
+    tmod = ctx.repo.module(MATCH)
+    bh = tmod.func('StretchyTreeMatcher.binflex_helper')
+    ctx.analysed_function(tmod, bh)
+
+    def via_binflex(fd, prev, cur):
+        base, right = fd.calls['AstMap'](), fd.calls['AstMap']()
+        out = []
+        fd.call_function(bh, [[cur], [right], out, [base]], {'use_previous': prev},
+                         bound_self=Obj('matcher', __open__=True))
+        return out
+
+    def via_binflex_right(fd, prev, cur):
+        base, left = fd.calls['AstMap'](), fd.calls['AstMap']()
+        out = []
+        fd.call_function(bh, [[left], [cur], out, [base]], {'use_previous': prev},
+                         bound_self=Obj('matcher', __open__=True))
+        return out
+    expr_cases = {
+        'inherited-then-current(new_merged_map)': lambda fd, prev, cur: [fd.call_method(prev, 'new_merged_map', [cur])],
+        'inherited-then-current(merge_map_with)': lambda fd, prev, cur: (fd.call_method(prev, 'merge_map_with', [cur]),
+                                                                         [prev])[1],
+        'binflex_helper(left operand)': via_binflex,
+        'binflex_helper(right operand)': via_binflex_right,
+    }
+    for name, build in expr_cases.items():
+        try:
+            got, old, new = expr_scenario(build)
+        except Inconclusive as e:
+            raise AnalysisError("C10 R4: %s outside the decidable fragment: %s" % (name, e))
+        except Raised as e:
+            got, old, new = ['raises %s' % e.kind], None, None
+        where = bh if name.startswith('binflex') else mod.func('AstMap.merge_map_with')
+        ctx.check(len(got) == 1 and got[0] is new, 'R4', 'AstMap:__expr__-bound-at-position[%s]' % name,
+                  tmod if name.startswith('binflex') else mod, where,
+                  "a match in progress binds __a__ to the subtree at its position while the inherited earlier match "
+                  "bound __a__ elsewhere; after %s the placeholder is bound to %s" % (
+                      name, ['the earlier subtree' if g is old else g for g in got]),
+                  "m = find_match('for _i_ in ___:\\n    __expr__'); m['__expr__'].find_match('__expr__ + _i_')"
+                  "['__expr__'] is the whole statement instead of the left operand")
     for name, (build, want) in scenarios.items():
         got = run_map(session(), build)
         ctx.check(got is want, 'R4', 'AstMap:' + name, mod, mod.func('AstMap.merge_map_with'),
